@@ -92,7 +92,7 @@ func NewIRITerm(iri string) (Term, error) {
 	if err != nil {
 		return Term{}, err
 	}
-	return Term{Value: escape("<", iri, ">")}, nil
+	return Term{Value: escapeIRI("<", iri, ">")}, nil
 }
 
 func isIRI(s string) bool {
@@ -120,7 +120,7 @@ func NewLiteralTerm(text, qual string) (Term, error) {
 	if err != nil {
 		return Term{}, err
 	}
-	return Term{Value: text + escape("^^<", qual, ">")}, nil
+	return Term{Value: text + escapeIRI("^^<", qual, ">")}, nil
 }
 
 func checkIRIText(iri string) error {
@@ -346,6 +346,30 @@ func escape(lq, s, rq string) string {
 	if rq != "" {
 		buf.WriteString(rq)
 	}
+	return buf.String()
+}
+
+// escapeIRI returns the IRI text s between lq and rq. Characters that
+// may not appear literally in an N-Quads IRIREF, the characters in the
+// range 0x00-0x20 and <, >, ", {, }, |, ^, ` and \, and non-printable
+// characters are written as UCHAR escapes, the only kind of escape that
+// an IRIREF can hold.
+func escapeIRI(lq, s, rq string) string {
+	var buf strings.Builder
+	buf.WriteString(lq)
+	for _, r := range s {
+		switch {
+		case r <= ' ', strings.ContainsRune("<>\"{}|^`\\", r):
+			fmt.Fprintf(&buf, `\u%04x`, r)
+		case r <= unicode.MaxASCII || strconv.IsPrint(r):
+			buf.WriteRune(r)
+		case r < 0x10000:
+			fmt.Fprintf(&buf, `\u%04x`, r)
+		default:
+			fmt.Fprintf(&buf, `\U%08x`, r)
+		}
+	}
+	buf.WriteString(rq)
 	return buf.String()
 }
 
